@@ -155,7 +155,8 @@ PROPS = {
                 "value  sum_t C(t,i) * prod_d a_d ** E(t,d)  in the polynomial ring (ghost sum over PV, loop invariant with the first "
                 "iteration peeled, through the value-level contracts of power, multiply, add, clean_attributes and "
                 "align_indeterminants, all proved from their source; numpoly.outer(array, 0-d polynomial).reshape is assumed). "
-                "Polynomial arguments that are arrays, numbers mixed with polynomial arguments, staged evaluation and machine-number "
+                "Array-valued polynomial arguments are covered by three further cases (result[i ++ j] with the arguments' shapes "
+                "broadcasting). Numbers mixed with polynomial arguments, staged evaluation and machine-number "
                 "kinds: bounded run-time checks (conc/checks_c02.py, exact oracle).",
                 trusted_base=COMMON_TRUSTED + ["numpy axioms: ones/zeros, ufunc broadcasting, array ** integer element-wise, "
                                                "outer(a, b).reshape(a.shape + b.shape)[i ++ j] == a[i] * b[j]",
@@ -164,7 +165,7 @@ PROPS = {
                              "D <= 2 and binding patterns enumerated",
                              "assumed: numpoly.outer(array, 0-d polynomial) reshaped to the array's shape multiplies element-wise; "
                              "B10 (a constant polynomial denotes the constant tonumpy returns)"],
-                not_decided=["array-valued polynomial arguments, numbers mixed with polynomial arguments, staged evaluation (bounded)",
+                not_decided=["numbers mixed with polynomial arguments, partial evaluation with array arguments, staged evaluation (bounded)",
                              "independence of the numeric type carrying an argument (bounded)"]),
     "C04": dict(
         level="other",
